@@ -7,10 +7,12 @@ From GS Require Import GoSem Text.
 Open Scope N_scope.
 
 (* ------------------------------------------------------------------ regexps *)
-(* The fragment of Go's regexp/syntax that is modelled (ASCII subjects): *)
+(* The fragment of Go's regexp/syntax that is modelled.  Subjects are byte strings read as UTF-8 the way Go's matcher reads
+   them (utf8.DecodeRune): `.` and a character class consume one encoded code point, and every byte of an invalid sequence
+   counts as U+FFFD of width 1. *)
 Inductive re :=
 | RChar (c : N)
-| RAny                                   (* .  : any byte but LF *)
+| RAny                                   (* .  : any code point but LF *)
 | RClass (neg : bool) (rs : list (N * N)) (* [a-z0-9], [^/] *)
 | REmpty
 | RCat (a b : re)
@@ -36,12 +38,45 @@ Fixpoint closure (fuel : nat) (step : nat -> list nat) (acc : list nat) : list n
       if Nat.eqb (length next) (length acc) then acc else closure f step next
   end.
 
+(* utf8.DecodeRune at position i: (code point, width) *)
+Definition cont_byte (x : N) : bool := (128 <=? x) && (x <=? 191).
+Definition rune_at (s : bytes) (i : nat) : option (N * nat) :=
+  match nth_error s i with
+  | None => None
+  | Some b0 =>
+    if b0 <? 128 then Some (b0, 1%nat)
+    else
+      let bad := Some (65533, 1%nat) in
+      match nth_error s (S i) with
+      | None => bad
+      | Some b1 =>
+        if (194 <=? b0) && (b0 <=? 223) then
+          (if cont_byte b1 then Some ((b0 - 192) * 64 + (b1 - 128), 2%nat) else bad)
+        else
+          let lo1 := if b0 =? 224 then 160 else if b0 =? 240 then 144 else 128 in
+          let hi1 := if b0 =? 237 then 159 else if b0 =? 244 then 143 else 191 in
+          if negb ((lo1 <=? b1) && (b1 <=? hi1)) then bad else
+          match nth_error s (S (S i)) with
+          | None => bad
+          | Some b2 =>
+            if negb (cont_byte b2) then bad
+            else if (224 <=? b0) && (b0 <=? 239) then Some ((b0 - 224) * 4096 + (b1 - 128) * 64 + (b2 - 128), 3%nat)
+            else if (240 <=? b0) && (b0 <=? 244) then
+              match nth_error s (S (S (S i))) with
+              | None => bad
+              | Some b3 => if cont_byte b3 then Some ((b0 - 240) * 262144 + (b1 - 128) * 4096 + (b2 - 128) * 64 + (b3 - 128), 4%nat) else bad
+              end
+            else bad
+          end
+      end
+  end.
+
 (* ends e s i : all j such that e matches s[i..j) (s is the whole subject, for the anchors) *)
 Fixpoint ends (e : re) (s : bytes) (i : nat) : list nat :=
   match e with
   | RChar c => match nth_error s i with Some x => if x =? c then [S i] else [] | None => [] end
-  | RAny => match nth_error s i with Some x => if x =? 10 then [] else [S i] | None => [] end
-  | RClass neg rs => match nth_error s i with Some x => if in_class neg rs x then [S i] else [] | None => [] end
+  | RAny => match rune_at s i with Some (r, w) => if r =? 10 then [] else [(i + w)%nat] | None => [] end
+  | RClass neg rs => match rune_at s i with Some (r, w) => if in_class neg rs r then [(i + w)%nat] else [] | None => [] end
   | REmpty => [i]
   | RCat a b => nodupn (flat_map (ends b s) (ends a s i))
   | RAlt a b => nodupn (ends a s i ++ ends b s i)
